@@ -88,7 +88,7 @@ f="$(build_all "$LEAN0" "$SCRATCH/base.log")"
 echo "   ok: all of them build"
 
 PATCHES=""
-for b in B1 B2 B3; do for n in 1 2 3 4 5 6; do
+for b in B1 B2 B3 B4 B5; do for n in 1 2 3 4 5 6; do
   case " ${ONLY:-$b/patch$n} " in *" $b/patch$n "*) PATCHES="$PATCHES $b/patch$n" ;; esac
 done; done
 
@@ -131,7 +131,7 @@ one_patch() {
   return 1
 }
 
-echo "== the 18 harmless rewrites of tools/harmless2 ($JOBS at a time)"
+echo "== the harmless rewrites of tools/harmless2 ($JOBS at a time)"
 i=0
 for name in $PATCHES; do
   shard=$((i % JOBS)); i=$((i+1))
